@@ -330,3 +330,12 @@ Example C08_boundaries :
                           mk_entry (VStr "l") (VStr "${b}") false false; mk_entry (VStr "r") (VStr "${b}") false false]
                       (VSeq [VStr "${b}"; VStr "${b} ${b}"; VMap [mk_entry (VStr "x") (VStr "${l}") false false; mk_entry (VStr "y") (VStr "${r}") false false]]) st0) 0 = true.
 Proof. repeat split; vm_compute; reflexivity. Qed.
+
+(** A reference whose path is computed (`${lists:${which}}`) and whose target mentions the selector again is
+    acyclic: resolving the selector for the path is finished before the target is rendered (kernel evaluation). *)
+Example C08_computed_path_target_mentions_selector :
+  let root := [ mk_entry (VStr "which") (VStr "a") false false;
+                mk_entry (VStr "lists") (VMap [mk_entry (VStr "a") (VSeq [VStr "${which}"; VStr "x"]) false false]) false false ] in
+  exists s, interp 60 root (VList [VSeq [VStr "first"]; VStr "${lists:${which}}"; VSeq [VStr "last"]]) st0
+            = Ok (VSeq [VLit "first"; VLit "a"; VLit "x"; VLit "last"], s).
+Proof. cbn zeta. eexists. vm_compute. reflexivity. Qed.
